@@ -168,6 +168,7 @@ theorem Disk.apply_WF (d : Disk) (h : d.WF) (e : Ev) : (d.apply e).WF := by
     split
     · exact h
     · exact h
+  | mkdirTree => exact h
   | creat f trunc =>
     simp only [Disk.apply]
     split
@@ -293,6 +294,7 @@ theorem Disk.dirs_apply (d : Disk) (e : Ev) :
   intro hne
   cases e with
   | mkdir p => exact absurd rfl (hne p)
+  | mkdirTree => rfl
   | creat f trunc =>
     simp only [Disk.apply]
     split
@@ -314,4 +316,8 @@ theorem Disk.dirs_apply (d : Disk) (e : Ev) :
 theorem Disk.has_iff (d : Disk) (f : FileId) : d.has f = true ↔ ∃ x, d.get f = some x := by
   simp only [Disk.has, Disk.get, Option.isSome_iff_exists]
 
+end CasModel
+
+namespace CasModel
+theorem Disk.get_mkdirTree (d : Disk) (g : FileId) : (d.apply .mkdirTree).get g = d.get g := rfl
 end CasModel
